@@ -334,7 +334,13 @@ def obligations(tier):
   BOUNDS[tier] = dict(frames="untagged/tagged x {tcp,udp,icmp,arp,other}; payload 2 bytes; all addresses/ports/tos/ttl/id/seq symbolic",
                       action_lists="1 rewrite + output for all 10 rewrites x frame kinds; sampled (quick) / all (thorough) rewrite pairs; enqueue",
                       ports="4 ports; symbolic config bits via port_mod: ingress port {NO_RECV,NO_RECV_STP,NO_FWD,PORT_DOWN}, two egress ports {PORT_DOWN,NO_FLOOD,NO_FWD(,NO_PACKET_IN)}, output to port/IN_PORT/FLOOD/ALL/absent port")
+  # the reference edit recomputes checksums with POX's own checksum(): the lemma that this routine is RFC 1071 (C14 O1) is discharged here too,
+  # for every buffer of 0..6 bytes (odd and even; C14 goes further)
+  from props.C14 import h_checksum
+  lemma = [dict(n=n, mode=m) for n in range(0, 7) for m in ('plain', 'start')] + [dict(n=6, mode='skip%d' % k) for k in (0, 1, 2, 3)]
   return [
+    Obligation('O0_checksum_lemma', h_checksum, lemma, witnesses=('returned',), mode='int', solver_timeout_ms=300000, path_seconds=1800,
+               desc='packet_utils.checksum == RFC 1071 reference (the routine the reference edit uses to recompute checksums)'),
     Obligation('O1_rewrite', h_rewrite, cases, witnesses=('done',), max_decisions=20000,
                desc='emitted bytes == byte-level reference edit for action lists over all 12 action types'),
     Obligation('O2_ports', h_ports, [dict(outkind=k) for k in ('port', 'in_port', 'flood', 'all')], witnesses=('accepted', 'refused'), max_decisions=20000,
